@@ -87,8 +87,16 @@ def observe_conv(fx, np, props, ts, td, codes, route, smodes, dmodes, shape=None
             src = mk(fx, np, ts, codes, shape, rounding=smodes[0], overflow=smodes[1])
             sshape = list(np.shape(src.val))
             kw = dict(rounding=dmodes[0], overflow=dmodes[1])
+            def bystander(ref):
+                # an UNRELATED object made like= the destination / template under other modes and sizing, and an element view of it,
+                # reconfigured: nothing of that may reach `ref`
+                o = Fxp(0.3, like=ref, rounding={'trunc': 'ceil', 'ceil': 'floor'}.get(dmodes[0], 'trunc'),
+                        overflow='wrap' if dmodes[1] == 'saturate' else 'saturate', op_sizing='same')
+                o.config.shifting = 'trunc'
+                return o
             if route == 'like=':
                 tmpl = Fxp(None, bool(td[0]), td[1], td[2], **kw)
+                bystander(tmpl)
                 dst = Fxp(src, like=tmpl)
             elif route == 'like=kw':               # a template of ANOTHER format, overridden by explicit sizes
                 tmpl = Fxp(None, not bool(td[0]), td[1] + 3, td[2] + 1, **kw)
@@ -99,6 +107,7 @@ def observe_conv(fx, np, props, ts, td, codes, route, smodes, dmodes, shape=None
                     dst = Fxp(src, like=tmpl, signed=bool(td[0]), n_word=td[1], n_frac=td[2])
             elif route == 'like()':
                 tmpl = Fxp(None, bool(td[0]), td[1], td[2], **kw)
+                bystander(tmpl)
                 dst = src.like(tmpl)
             elif route == 'ctor':
                 dst = Fxp(src, bool(td[0]), td[1], td[2], **kw)
@@ -106,12 +115,14 @@ def observe_conv(fx, np, props, ts, td, codes, route, smodes, dmodes, shape=None
                 dst = Fxp(src, dtype=dtype_str(td), **kw)
             elif route == 'call':
                 dst = Fxp(None, bool(td[0]), td[1], td[2], **kw)
+                bystander(dst)
                 dst(src)
             elif route == 'set_val':
                 dst = Fxp(None, bool(td[0]), td[1], td[2], **kw)
                 dst.set_val(src)
             elif route == 'equal':
                 dst = Fxp(np.zeros(np.shape(src.val)) if not scalar else None, bool(td[0]), td[1], td[2], **kw)
+                bystander(dst)
                 dst.equal(src)
             elif route == 'setitem-elem':
                 # every element assigned individually: dst[i] = src[i]
